@@ -1,3 +1,407 @@
+//! C15 — engine primitives and tables implement their mathematical contracts.
+//! Whole-domain enumeration where the domain is finite and small enough (all table entries, all
+//! 2^32 (symbol, log_m) pairs, all 65536 unit erasure vectors) and small-scope enumeration of
+//! transform shapes, against gfref definitions.
+use crate::core::*;
+use crate::json::J;
+use crate::kv::*;
+use crate::prim::*;
 use crate::report::*;
-pub fn run(_ctx: &Ctx, rep: &mut Report) { rep.machinery_errors.push("not implemented".into()); }
-pub fn replay(_ctx: &Ctx, _case: &str) -> Result<(), String> { Err("not implemented".into()) }
+use crate::with_engine;
+use reed_solomon_simd::engine::tables;
+
+type V = (String, String);
+
+// ---------------------------------------------------------------- tables
+
+fn check_tables(f: &gfref::Field, rep: &mut Report) {
+    let mut n = 0u64;
+    let mut bad = |name: &str, idx: String, want: String, got: String, rep: &mut Report| {
+        rep.violation(Violation { key: format!("table-{name}-{idx}"), case: format!("what=table name={name}"), expected: format!("{name}[{idx}] == {want}"), observed: got });
+    };
+    let el = &*tables::EXP_LOG;
+    for l in 0..65536usize {
+        n += 1;
+        if el.exp[l] != f.exp[l] {
+            bad("exp", l.to_string(), format!("{:#06x}", f.exp[l]), format!("{:#06x}", el.exp[l]), rep);
+            break;
+        }
+    }
+    for x in 0..65536usize {
+        n += 1;
+        if el.log[x] != f.log[x] {
+            bad("log", x.to_string(), f.log[x].to_string(), el.log[x].to_string(), rep);
+            break;
+        }
+    }
+    let skew = &*tables::SKEW;
+    let sk: Vec<(u16, u16)> = par_for(65535, 512, |i| (skew[i], f.skew_ref(i)));
+    for (i, (got, want)) in sk.iter().enumerate() {
+        n += 1;
+        if got != want {
+            bad("skew", i.to_string(), want.to_string(), got.to_string(), rep);
+            break;
+        }
+    }
+    // log-Walsh by the O(n^2) definition of the Walsh-Hadamard transform, modulo 65535
+    let lw = &*tables::LOG_WALSH;
+    let wh: Vec<(u16, u32)> = par_for(65536, 64, |j| {
+        let mut acc: i64 = 0;
+        for x in 1..65536usize {
+            let l = f.log[x] as i64;
+            if (j & x).count_ones() & 1 == 0 {
+                acc += l;
+            } else {
+                acc -= l;
+            }
+        }
+        (lw[j], acc.rem_euclid(65535) as u32)
+    });
+    for (j, (got, want)) in wh.iter().enumerate() {
+        n += 1;
+        if *got as u32 % 65535 != *want {
+            bad("log_walsh", j.to_string(), format!("{want} (mod 65535)"), got.to_string(), rep);
+            break;
+        }
+    }
+    let m16 = &*tables::MUL16;
+    let m128 = &*tables::MUL128;
+    let res: Vec<Option<(String, String, String, String)>> = par_for(65536, 256, |log_m| {
+        for nib in 0..4 {
+            for i in 0..16usize {
+                let want = f.mul_exp((i << (4 * nib)) as u16, log_m as u16);
+                if m16[log_m][nib][i] != want {
+                    return Some(("mul16".into(), format!("{log_m}][{nib}][{i}"), format!("{want:#06x}"), format!("{:#06x}", m16[log_m][nib][i])));
+                }
+                let lo = m128[log_m].lo[nib].to_le_bytes()[i];
+                let hi = m128[log_m].hi[nib].to_le_bytes()[i];
+                if lo != want as u8 || hi != (want >> 8) as u8 {
+                    return Some(("mul128".into(), format!("{log_m}].lo/hi[{nib}] byte {i}"), format!("{want:#06x}"), format!("{:#04x}{:02x}", hi, lo)));
+                }
+            }
+        }
+        None
+    });
+    n += 65536 * 64 * 2;
+    for r in res.into_iter().flatten() {
+        bad(&r.0, r.1, r.2, r.3, rep);
+        break;
+    }
+    rep.extra("table_entries_checked", J::i(n));
+    rep.evaluations += n;
+    rep.states += n;
+}
+
+// ---------------------------------------------------------------- mul
+
+/// all symbols for one (engine, log_m)
+fn check_mul_row(f: &gfref::Field, eng: &str, log_m: u16) -> Result<u64, V> {
+    let mut buf = vec![[0u8; 64]; 2048];
+    for sym in 0..65536usize {
+        let (b, s) = (sym / 32, sym % 32);
+        buf[b][s] = sym as u8;
+        buf[b][32 + s] = (sym >> 8) as u8;
+    }
+    if let Err(p) = guard(|| with_engine!(eng, E => mul_blocks::<E>(&mut buf, log_m))) {
+        return Err(("no panic".into(), format!("PANIC: {p}")));
+    }
+    for sym in 0..65536usize {
+        let (b, s) = (sym / 32, sym % 32);
+        let got = buf[b][s] as u16 | (buf[b][32 + s] as u16) << 8;
+        let want = f.mul_exp(sym as u16, log_m);
+        if got != want {
+            return Err((format!("mul: {sym:#06x} * g^{log_m} == {want:#06x}"), format!("{got:#06x}")));
+        }
+    }
+    Ok(65536)
+}
+
+// ---------------------------------------------------------------- transforms
+
+/// reference basis row: X_j(x) for j < size
+fn basis_row(f: &gfref::Field, size: usize, x: u16) -> Vec<u16> {
+    let bits = size.trailing_zeros() as usize;
+    let sh: Vec<u16> = (0..bits).map(|b| f.shat(b, x)).collect();
+    let mut basis = vec![f.one(); size];
+    for j in 1..size {
+        let b = j.trailing_zeros() as usize;
+        basis[j] = f.mul(basis[j & (j - 1)], sh[b]);
+    }
+    basis
+}
+
+fn dot(f: &gfref::Field, a: &[u16], b: &[u16]) -> u16 {
+    let mut v = 0u16;
+    for (x, y) in a.iter().zip(b) {
+        v ^= f.mul(*x, *y);
+    }
+    v
+}
+
+const SLOTS: [(usize, usize); 2] = [(0, 0), (usize::MAX, 17)]; // (block, slot); block MAX = last block
+
+/// one (engine, n, delta) : every truncated_size in `truncs`, reference on the points `points`
+fn check_transform_family(f: &gfref::Field, eng: &str, n: u32, delta: usize, len64: usize, truncs: &[usize], points: &[usize], seed: u64) -> Result<u64, V> {
+    let size = 1usize << n;
+    let pos = 1usize;
+    let count = size + 2;
+    let rows: Vec<Vec<u16>> = points.iter().map(|&i| basis_row(f, size, (delta + i) as u16)).collect();
+    let mut rng = Rng::new(seed ^ ((n as u64) << 32) ^ delta as u64);
+    let mut checks = 0u64;
+    // ---- fft: arbitrary coefficients, first trunc outputs
+    let input = Buf::random(count, len64, &mut rng);
+    let slots: Vec<(usize, usize)> = SLOTS.iter().map(|(b, s)| (if *b == usize::MAX { len64 - 1 } else { *b }, *s)).collect();
+    let coeffs: Vec<Vec<u16>> = slots.iter().map(|(b, s)| (0..size).map(|j| input.sym(pos + j, *b, *s)).collect()).collect();
+    let want: Vec<Vec<u16>> = coeffs.iter().map(|c| rows.iter().map(|row| dot(f, c, row)).collect()).collect();
+    for &trunc in truncs {
+        let mut buf = input.clone();
+        if let Err(p) = guard(|| with_engine!(eng, E => transform::<E>(Dir::Fft, &mut buf, pos, size, trunc, delta))) {
+            return Err(("no panic".into(), format!("PANIC: {p}")));
+        }
+        for (si, (b, s)) in slots.iter().enumerate() {
+            for (pi, &i) in points.iter().enumerate() {
+                if i < trunc {
+                    checks += 1;
+                    let got = buf.sym(pos + i, *b, *s);
+                    if got != want[si][pi] {
+                        return Err((format!("fft(size=2^{n}, truncated_size={trunc}, skew_delta={delta}) output {i} (block {b} slot {s}) == polynomial value at point {} = {:#06x}", delta + i, want[si][pi]), format!("{got:#06x}")));
+                    }
+                }
+            }
+        }
+        if buf.shard(0) != input.shard(0) || buf.shard(count - 1) != input.shard(count - 1) {
+            return Err((format!("fft(size=2^{n}, truncated_size={trunc}) leaves shards outside [pos,pos+size) alone"), "guard shard modified".into()));
+        }
+    }
+    // ---- ifft: values with zero tail -> coefficients that evaluate back to the values
+    for &trunc in truncs {
+        let mut buf = Buf::random(count, len64, &mut rng);
+        buf.zero_shards(pos + trunc, pos + size);
+        let values = buf.clone();
+        if let Err(p) = guard(|| with_engine!(eng, E => transform::<E>(Dir::Ifft, &mut buf, pos, size, trunc, delta))) {
+            return Err(("no panic".into(), format!("PANIC: {p}")));
+        }
+        for (b, s) in &slots {
+            let c: Vec<u16> = (0..size).map(|j| buf.sym(pos + j, *b, *s)).collect();
+            for (pi, &i) in points.iter().enumerate() {
+                checks += 1;
+                let back = dot(f, &c, &rows[pi]);
+                let v = values.sym(pos + i, *b, *s);
+                if back != v {
+                    return Err((format!("ifft(size=2^{n}, truncated_size={trunc}, skew_delta={delta}): coefficients evaluate at point {} to the input value {v:#06x} (block {b} slot {s})", delta + i), format!("{back:#06x}")));
+                }
+            }
+        }
+        if buf.shard(0) != values.shard(0) || buf.shard(count - 1) != values.shard(count - 1) {
+            return Err((format!("ifft(size=2^{n}, truncated_size={trunc}) leaves shards outside [pos,pos+size) alone"), "guard shard modified".into()));
+        }
+    }
+    Ok(checks)
+}
+
+// ---------------------------------------------------------------- eval_poly
+
+fn check_eval_poly(f: &gfref::Field, eng: &str, marked: &[usize], trunc: usize, xs_stride: usize) -> Result<u64, V> {
+    let out = match guard(|| with_engine!(eng, E => eval_poly_of::<E>(marked, trunc))) {
+        Ok(o) => o,
+        Err(p) => return Err(("no panic".into(), format!("PANIC: {p}"))),
+    };
+    // reference through the smaller of marked / unmarked (sum of all non-zero logs is 0 mod 65535)
+    let mut is_marked = vec![false; 65536];
+    for &m in marked {
+        is_marked[m] = true;
+    }
+    let use_complement = marked.len() > 32768;
+    let set: Vec<usize> = if use_complement { (0..65536).filter(|j| !is_marked[*j]).collect() } else { marked.to_vec() };
+    let mut n = 0u64;
+    let mut x = 0usize;
+    while x < 65536 {
+        let mut r = f.eval_poly_ref(&set, x);
+        if use_complement {
+            r = (65535 - r) % 65535;
+        }
+        n += 1;
+        if out[x] as u32 % 65535 != r {
+            return Err((format!("eval_poly(marked={}, truncated_size={trunc}) out[{x}] == {r} (mod 65535) = sum of log(x^j) over marked j != x", fmt_ranges(marked)), format!("{}", out[x])));
+        }
+        x += xs_stride;
+    }
+    Ok(n)
+}
+
+fn decoder_vectors() -> Vec<(Vec<usize>, usize)> {
+    let mut v = Vec::new();
+    for k in 1..=3usize {
+        for r in 1..=3usize {
+            // high rate
+            let chunk = pow2ceil(r);
+            for mask in crate::rt::subsets_at_least_k(k, r) {
+                let (og, rg) = crate::rt::split_mask(k, r, mask);
+                if og.len() == k {
+                    continue;
+                }
+                let mut m: Vec<usize> = (0..r).filter(|j| !rg.contains(j)).collect();
+                m.extend(r..chunk);
+                m.extend((0..k).filter(|i| !og.contains(i)).map(|i| chunk + i));
+                m.sort();
+                v.push((m, chunk + k));
+                // low rate
+                let chunk = pow2ceil(k);
+                let mut m: Vec<usize> = (0..k).filter(|i| !og.contains(i)).collect();
+                m.extend((0..r).filter(|j| !rg.contains(j)).map(|j| chunk + j));
+                m.extend(chunk + r..65536);
+                m.sort();
+                v.push((m, 65536));
+            }
+        }
+    }
+    v.sort();
+    v.dedup();
+    v
+}
+
+// ---------------------------------------------------------------- driver
+
+fn run_case(f: &gfref::Field, kv: &Kv) -> Result<u64, V> {
+    match kv.str("what") {
+        "mul" => check_mul_row(f, kv.str("eng"), kv.usize("log_m") as u16),
+        "transform" => check_transform_family(f, kv.str("eng"), kv.usize("n") as u32, kv.usize("delta"), kv.usize("len64"), &parse_ranges(kv.str("truncs")), &parse_ranges(kv.str("points")), kv.u64("seed")),
+        "eval_poly" => check_eval_poly(f, kv.str("eng"), &parse_ranges(kv.str("marked")), kv.usize("trunc"), kv.usize("stride")),
+        "table" => {
+            let mut rep = Report::new();
+            check_tables(f, &mut rep);
+            match rep.violations.first() {
+                None => Ok(1),
+                Some(v) => Err((v.expected.clone(), v.observed.clone())),
+            }
+        }
+        w => panic!("what {w}"),
+    }
+}
+
+pub fn replay(_ctx: &Ctx, case: &str) -> Result<(), String> {
+    let kv = Kv::parse(case)?;
+    run_case(&gfref::Field::new(), &kv).map(|_| ()).map_err(|(e, o)| format!("expected {e}; observed {o}"))
+}
+
+pub fn run(ctx: &Ctx, rep: &mut Report) {
+    let f = gfref::Field::new();
+    f.self_check(false);
+    f.self_check_code();
+    let seed = ctx.seed;
+    rep.rule = "tables: every entry of exp, log, skew, log-Walsh (O(n^2) definition), Mul16, Mul128; mul: every (symbol, log_m) pair for every engine; fft/ifft: for size 2^n every chunk-aligned skew offset (thinned above the bound) and every truncated_size, reference = evaluation of the LCH-basis polynomial at the points skew_delta+i by gfref; eval_poly: unit vectors, pairs, prefixes and every erasure vector the decoders of (k,r)<=3 build, at every truncated_size class, against sum of logs; non-trivial = every case except truncated_size 0; distinct by argument tuple".into();
+    rep.assume("gfref derives exp/log, subspace polynomials and the LCH basis from the field polynomial 0x1002D and the Cantor basis only");
+    check_tables(&f, rep);
+
+    let mut cases: Vec<Kv> = Vec::new();
+    // mul
+    let engs = engines_all();
+    for &eng in &engs {
+        let slow = eng == "naive" || eng == "neonemu";
+        for log_m in 0..65536usize {
+            if !ctx.thorough() && slow && log_m % 16 != 5 && log_m > 255 && log_m < 65280 {
+                continue;
+            }
+            cases.push(Kv::new().with("what", "mul").with("eng", eng).with("log_m", log_m));
+        }
+    }
+    rep.bound("mul", J::s(if ctx.thorough() { "all 2^32 (symbol, log_m) pairs, every engine" } else { "all 2^32 pairs for nosimd/ssse3/avx2/default; naive and neonemu: all symbols x (log_m < 256, >= 65280 and every 16th)" }));
+    // transforms
+    let nmax = if ctx.thorough() { 10 } else { 6 };
+    for &eng in &engs {
+        for n in 0..=nmax {
+            let size = 1usize << n;
+            let all_deltas: Vec<usize> = (0..65536 / size).map(|c| c * size).collect();
+            let full = ctx.thorough() && n <= 8 && (eng == "nosimd" || eng == "avx2") || ctx.thorough() && n <= 6;
+            let deltas: Vec<usize> = if full {
+                all_deltas.clone()
+            } else {
+                let mut d: Vec<usize> = all_deltas.iter().copied().take(4).collect();
+                d.extend(all_deltas.iter().rev().take(2));
+                d.sort();
+                d.dedup();
+                d
+            };
+            let truncs: Vec<usize> = (0..=size).collect();
+            let points: Vec<usize> = (0..size).collect();
+            for (di, &delta) in deltas.iter().enumerate() {
+                // all truncated sizes, in groups to spread the work
+                for chunk in truncs.chunks(if n >= 9 { 16 } else { 64 }) {
+                    cases.push(Kv::new().with("what", "transform").with("eng", eng).with("n", n).with("delta", delta).with("len64", 1 + di % 2).with("truncs", fmt_ranges(chunk)).with("points", fmt_ranges(&points)).with("seed", seed));
+                }
+            }
+        }
+    }
+    rep.bound("transform", J::s(format!("n <= {nmax}, every truncated_size, every output point; skew offsets: {}", if ctx.thorough() { "all chunk-aligned for n<=8 on nosimd/avx2 and n<=6 on the others, else first 4 and last 2" } else { "first 4 and last 2 chunk-aligned" })));
+    if ctx.thorough() {
+        for &eng in &engs {
+            for (n, npts) in [(12u32, 64usize), (16, 24)] {
+                let size = 1usize << n;
+                let mut pts: Vec<usize> = (0..npts).map(|i| (i * 2654435761usize) % size).collect();
+                pts.extend([0, 1, size - 1, size / 2]);
+                pts.sort();
+                pts.dedup();
+                let truncs: Vec<usize> = vec![1, 2, 3, 5, 64, 65, size / 2 - 1, size / 2, size / 2 + 1, size - 1, size];
+                for t in truncs.chunks(3) {
+                    cases.push(Kv::new().with("what", "transform").with("eng", eng).with("n", n).with("delta", 0).with("len64", 1).with("truncs", fmt_list(t)).with("points", fmt_list(&pts)).with("seed", seed));
+                }
+            }
+        }
+        rep.bound("transform_large", J::s("n = 12 and 16 at skew offset 0, 11 truncated sizes, reference on 64 / 24 fixed output points plus the ends"));
+    }
+    // eval_poly
+    let mut vecs = crate::c03::eval_poly_families(ctx.thorough());
+    vecs.extend(decoder_vectors());
+    for (marked, trunc) in &vecs {
+        for eng in ["nosimd", "avx2", "ssse3", "neonemu", "default"] {
+            if !engs.contains(&eng) {
+                continue;
+            }
+            let light = marked.len() <= 2 || marked.len() >= 65530;
+            if (eng != "nosimd" && eng != "avx2") && !light {
+                continue;
+            }
+            cases.push(Kv::new().with("what", "eval_poly").with("eng", eng).with("marked", fmt_ranges(marked)).with("trunc", trunc).with("stride", if light || marked.len() < 64 { 1 } else { 7 }));
+        }
+    }
+    let units: Vec<usize> = if ctx.thorough() { (0..65536).collect() } else { (0..65536).step_by(16).chain([1, 2, 3, 65534, 65535]).collect() };
+    for &u in &units {
+        let eng = if u % 2 == 0 && engs.contains(&"avx2") { "avx2" } else { "nosimd" };
+        cases.push(Kv::new().with("what", "eval_poly").with("eng", eng).with("marked", u).with("trunc", if u % 3 == 0 { 65536 } else { u + 1 }).with("stride", 1));
+    }
+    rep.bound("eval_poly", J::s(format!("{} indicator vectors x truncated_size classes (families of C03 + every decoder-built vector for k,r<=3), {} unit vectors", vecs.len(), units.len())));
+
+    let results: Vec<Result<u64, V>> = par_for(cases.len(), 4, |i| match guard(|| run_case(&f, &cases[i])) {
+        Ok(r) => r,
+        Err(p) => Err(("no panic".into(), format!("PANIC: {p}"))),
+    });
+    let mut per: std::collections::BTreeMap<String, u64> = Default::default();
+    for (kv, res) in cases.iter().zip(results) {
+        rep.states += 1;
+        rep.transitions += 1;
+        rep.traces += 1;
+        rep.distinct += 1;
+        match res {
+            Ok(n) => {
+                rep.evaluations += n;
+                *per.entry(kv.str("what").to_string()).or_default() += n;
+            }
+            Err((exp, obs)) => rep.violation(Violation {
+                key: format!("{}-{}-{}", kv.str("what"), kv.str("eng"), match kv.str("what") {
+                    "mul" => format!("m{}", kv.str("log_m")),
+                    "transform" => format!("n{}-d{}-t{}", kv.str("n"), kv.str("delta"), kv.str("truncs")),
+                    _ => format!("{}-t{}", kv.str("marked"), kv.str("trunc")),
+                }),
+                case: kv.dump(),
+                expected: exp,
+                observed: obs,
+            }),
+        }
+    }
+    for (k, v) in per {
+        rep.extra(&format!("checks_{k}"), J::i(v));
+    }
+    for i in [0, cases.len() / 3, cases.len() * 2 / 3, cases.len() - 1] {
+        rep.sample(cases[i].dump());
+    }
+}
